@@ -423,6 +423,19 @@ fn suite_ids(g: &Gram, out: &mut Out, seed: u64, table: &Value) {
                 }
                 logged_call(&mut s, out, name, true);
             }
+            if kind == "type_id" {
+                // the SAME explicit id with the same operands twice: "a request with an explicit id always appends a
+                // declaration carrying that id" - also when an identical declaration with that very id exists already
+                let id = s.b.id();
+                out.ev(json!({"ev": "bcall", "m": "id", "rt": [], "rid_explicit": [], "rid_param": false, "ip": ["End"], "idx": [], "flat": [], "res": ["Ok", jw(id)],
+                              "selF": j_sel(s.b.selected_function()), "selB": j_sel(s.b.selected_block()), "module": [j_module(s.b.module_ref())]}));
+                for _ in 0..2 {
+                    s.a.rng = Rng::new(seed + k + 1234);
+                    s.a.counter = 7000;
+                    s.a.explicit_rid = Some(id);
+                    logged_call(&mut s, out, name, true);
+                }
+            }
             s.a.explicit_rid = None;
             logged_call(&mut s, out, "id", true);
             finish_event(s, out, None);
@@ -440,6 +453,32 @@ fn suite_ids(g: &Gram, out: &mut Out, seed: u64, table: &Value) {
                 logged_call(&mut s, out, name, true);
                 s.a.explicit_rid = None;
                 logged_call(&mut s, out, "id", true);
+                if explicit && k % 3 == 1 {
+                    // every id reserved up front (function, label, result - the result id last), the call fails outside a
+                    // block, then the same ids are used for real and nothing else is allocated: the bound must be above them
+                    finish_event(s, out, None);
+                    let mut s = new_session(g, out, "new", seed + k);
+                    let mut ids = vec![];
+                    for _ in 0..3 {
+                        let id = s.b.id();
+                        out.ev(json!({"ev": "bcall", "m": "id", "rt": [], "rid_explicit": [], "rid_param": false, "ip": ["End"], "idx": [], "flat": [], "res": ["Ok", jw(id)],
+                                      "selF": j_sel(s.b.selected_function()), "selB": j_sel(s.b.selected_block()), "module": [j_module(s.b.module_ref())]}));
+                        ids.push(id);
+                    }
+                    s.a.explicit_rid = Some(ids[2]);
+                    logged_call(&mut s, out, name, true);
+                    s.a.explicit_rid = Some(ids[0]);
+                    logged_call(&mut s, out, "begin_function", true);
+                    s.a.explicit_rid = Some(ids[1]);
+                    logged_call(&mut s, out, "begin_block", true);
+                    s.a.explicit_rid = Some(ids[2]);
+                    logged_call(&mut s, out, name, true);
+                    s.a.explicit_rid = None;
+                    if s.b.selected_block().is_some() { logged_call(&mut s, out, "ret", true); }
+                    logged_call(&mut s, out, "end_function", true);
+                    finish_event(s, out, None);
+                    continue;
+                }
                 if explicit && k % 3 != 0 { finish_event(s, out, None); continue; }
                 logged_call(&mut s, out, "begin_function", true);
                 logged_call(&mut s, out, "begin_block", true);
